@@ -272,19 +272,39 @@ def specSchema (t : Tgt) (k : Chk) (c : Case) : Option Val :=
   | some v => if specHolds t k v then some v else none
   | none => none
 
+/-- A float source, if the source is one. -/
+def floatSrc : Src → Option F
+  | .f32 x => some x
+  | .f64 x => some x
+  | _ => none
+
+/-- float → string is compared by the value the text denotes (the harness restates the
+    implementation's text as `d<value>`): the model's text is `strconv.FormatFloat(x,'g',-1,bits)`
+    (parameter), which denotes the source iff it round-trips (`srt`, parameter). -/
+def showModelStr (t : Tgt) (c : Case) (r : R Val) : String :=
+  match t, floatSrc c.src, r with
+  | .str, some x, .ok (.str _) => if c.srt == "1" then "ok d" ++ showF x else "ok s" ++ hex (strBytes "<text that does not denote the source>")
+  | _, _, r => showR r
+
+/-- …and the specification: a correct coercion's text denotes exactly the source. -/
+def showSpecStr (t : Tgt) (c : Case) (v : Option Val) : String :=
+  match t, floatSrc c.src, v with
+  | .str, some x, some _ => "ok d" ++ showF x
+  | _, _, v => showSpec v
+
 def handle : List String → String
   | "H" :: h :: tg :: rest =>
     match parseTgt tg, parseCase rest with
     | some t, some c =>
       match runHelper h t c with
-      | some r => s!"{showR r}\t{showSpec (specVal t c)}\t{flags t c}"
+      | some r => s!"{showModelStr t c r}\t{showSpecStr t c (specVal t c)}\t{flags t c}"
       | none => "bad-op"
     | _, _ => "bad-op"
   | "S" :: tg :: op :: bk :: bv :: rest =>
     match parseTgt tg, parseChk op bk bv, parseCase rest with
     | some t, some k, some c =>
       let m := parseCoerced (fun _ => c.fmt) (fun _ => c.fmt) t k c.src
-      s!"{showR m} c1\t{showSpec (specSchema t k c)} c1\t{flags t c}"
+      s!"{showModelStr t c m} c1\t{showSpecStr t c (specSchema t k c)} c1\t{flags t c}"
     | _, _, _ => "bad-op"
   | _ => "bad-op"
 
